@@ -4,7 +4,13 @@
 // before/after the first instruction) are rendered to AWK programs of that
 // shape; the context is made done at the chosen point by a script-callable Go
 // function, and the per-instruction hook (build tag verif) counts the VM
-// instructions dispatched afterwards.
+// instructions dispatched afterwards.  The lines printed before that point go
+// to the destination the scenario names (unbuffered standard output, a
+// bufio.Writer given as Config.Output, a file, a command) and must all be
+// there when the call has returned; nothing is flushed by the harness.  Steps
+// of an uncancelled ExecuteContext are compared with Execute, including what
+// system() and close() return and write to the error stream for a child that
+// exits 0, exits 3, is killed by a signal, or whose wait fails.
 package c15
 
 import (
@@ -502,6 +508,18 @@ func Replay(raw json.RawMessage) hx.Outcome {
 	if sc.Fam == "nocancel" {
 		return replayNoCancel(&sc, dest, units)
 	}
+	oc := replayCancel(&sc, dest, units)
+	// A command destination depends on the machine: os/exec closes the pipe to a command 250 ms (WaitDelay) after
+	// its context is done, whether the interpreter has written the pending lines by then or not.  The interpreter
+	// gets there within microseconds; under heavy load a failure counts only if it shows three times in a row.
+	for try := 0; try < 2 && dest == "cmd" && oc.Fail != nil && strings.HasPrefix(oc.Fail.Sig, "C15/delivery/"); try++ {
+		oc = replayCancel(&sc, dest, units)
+	}
+	return oc
+}
+
+func replayCancel(scp *Scenario, dest string, units int) hx.Outcome {
+	sc := *scp
 	// the buffer was written out before the cancellation (BufferFull in the model): more than a buffer-full was printed
 	big := units > 0 && dest != "direct" && sc.Pending[dest] == 0
 	perUnit := unitLines
@@ -546,10 +564,23 @@ func Replay(raw json.RawMessage) hx.Outcome {
 			return hx.Fail("C15/poll/late-after-wait/"+sc.Waiting,
 				fmt.Sprintf("%d loop iterations (each at least one instruction) ran after the child was killed", o.Ticks), fmt.Sprintf("<= %d instructions", limit), o.Ticks*ipt, prog)
 		}
+	case dest == "cmd":
+		// not hooked (the program waits for its command to come up; several such runs go on at a time): the poll
+		// phase is not placed, and the bound is applied to iterations (vtick) as after a killed child
+		vars := append([]string{"K", fmt.Sprint(kc), "pad", fmt.Sprint(map[string]int{"after-poll": 0, "mid": 60, "before-poll": 120}[sc.OpsClass])}, fvars...)
+		prog = fmt.Sprintf("# K=%s pad=%s why=%s pre=%v Config.Output=unbuffered OUTF=outf CMD=%q\n%s", vars[1], vars[3], sc.Why, !sc.Started, fvars[3], src)
+		o = run(runOpts{src: src, input: input, vars: vars, why: sc.Why, pre: !sc.Started, files: files})
+		if o.Result == "hang" {
+			return hx.Fail("C15/poll/not-stopped/"+inner, fmt.Sprintf("ExecuteContext still running %v after the context was done", HangTimeout), "return with the context's error", "still running", prog)
+		}
+		if o.Result == "aborted" || o.Ticks > limit {
+			return hx.Fail("C15/poll/late/"+inner,
+				fmt.Sprintf("%d iterations (each at least one instruction) ran after the context was done", o.Ticks), fmt.Sprintf("<= %d instructions", limit), o.Ticks, prog)
+		}
 	default:
 		vars := append([]string{"K", fmt.Sprint(kc), "pad", "0"}, fvars...)
 		if sc.Started {
-			c, ok := calibrate(src, input, kc, dest == "file" || dest == "cmd")
+			c, ok := calibrate(src, input, kc, dest == "file")
 			if !ok {
 				return hx.Outcome{Skipped: true, Note: "calibration failed"}
 			}
@@ -637,6 +668,12 @@ func drained(path string, want int) ([]byte, int) {
 	limit := cmdDrainTimeout
 	if drainedInVain.Load() {
 		limit = 2 * time.Second
+	}
+	if v := os.Getenv("VERIF_C15_DRAIN_S"); v != "" { // self-test runs: the demand is corrupted, the wait is in vain by construction
+		var sec int
+		if _, err := fmt.Sscanf(v, "%d", &sec); err == nil && sec > 0 {
+			limit = time.Duration(sec) * time.Second
+		}
 	}
 	var b []byte
 	got := 0
